@@ -9,7 +9,7 @@ unfinished thread (free switch).  An execution is therefore a deterministic func
 import sys
 import threading
 
-WAIT = 30.0
+WAIT = 10.0      # a switch that is not answered within this time is a hang (executions take milliseconds)
 
 
 class Hang(Exception):
@@ -64,7 +64,7 @@ class Execution:
                 raise Hang()
 
     def _run_thread(self, tid):
-        if not self.sems[tid].acquire(timeout=WAIT * 4):
+        if not self.sems[tid].acquire(timeout=WAIT * 2):
             self.hung = True
             return
         sys.settrace(self._global(tid))
@@ -90,7 +90,7 @@ class Execution:
         for t in ths:
             t.start()
         self.sems[first].release()
-        if not self.main.acquire(timeout=WAIT * 8):
+        if not self.main.acquire(timeout=WAIT * 2):
             self.hung = True
         for t in ths:
             t.join(timeout=1.0)
